@@ -124,3 +124,6 @@ package markdown
 //@   call Wrap after assume tbl(t)
 //@   requires [writer-ok] !Wfailed
 //@   ensures [failing-writer-surfaces] Wfailed ==> result != nil @C15
+
+//@ global propWidth immutable -- private property key, only compared
+//@ global ErrNotCellProperties immutable -- an errors.New value, only returned
